@@ -11,9 +11,16 @@
 #include "oracle/zp_reduce.h"
 #include "c02_torsion_library.h"
 
+#include <cerrno>
+#include <climits>
 #include <cmath>
 #include <memory>
 #include <sstream>
+#include <stdexcept>
+#include <type_traits>
+#include <sys/time.h>
+#include <sys/wait.h>
+#include <unistd.h>
 
 namespace c02 {
 
@@ -27,11 +34,55 @@ typedef Gudhi::persistent_cohomology::Multi_field Multi_field;
 
 const double kInf = std::numeric_limits<double>::infinity();
 
+// double -> Filtration_value; a Filtration_value without infinity (integers) uses its extreme values instead, as the complexes do
+template <class FV> FV to_fv(double x) {
+  if (!std::numeric_limits<FV>::has_infinity) {
+    if (x == kInf) return std::numeric_limits<FV>::max();
+    if (x == -kInf) return std::numeric_limits<FV>::lowest();
+  }
+  return (FV)x;
+}
+// the "death value" of a never-ending interval in the complex' Filtration_value: +infinity, or the largest value of a type without one
+template <class FV> double essential_death() {
+  return std::numeric_limits<FV>::has_infinity ? kInf : (double)std::numeric_limits<FV>::max();
+}
+
+// ------------------------------------------------------------------------------------------------ guarded execution
+// Runs fn() in a forked copy of the process with a CPU-time budget, for the two situations where the failure mode of the library
+// is "never returns" or "undefined behaviour that kills the process" and the harness wants ONE classified violation per case
+// instead of a watchdog hang / a shard restart.  The budget is 3-4 orders of magnitude above the cost of a correct run (the
+// guarded calls take microseconds to milliseconds), so it never decides a verdict on a correct library.  The child writes nothing
+// to the evidence file; its sanitizer report, if any, goes to the shard's stderr.
+struct Guarded { enum Kind { ok, timeout, died } kind = ok; int sig = 0; };
+template <class F>
+Guarded guarded(F fn, int cpu_ms) {
+  fflush(stdout); fflush(stderr);
+  pid_t pid = fork();
+  if (pid < 0) throw std::runtime_error("fork failed");
+  if (pid == 0) {
+    vh::G().cur_case = -1;                   // (the fatal-signal hook of vh.h must not write a history record from the child)
+    signal(SIGVTALRM, SIG_DFL); signal(SIGALRM, SIG_DFL);
+    struct itimerval tv; memset(&tv, 0, sizeof tv);
+    tv.it_value.tv_sec = cpu_ms / 1000; tv.it_value.tv_usec = (cpu_ms % 1000) * 1000;
+    setitimer(ITIMER_VIRTUAL, &tv, nullptr); // CPU time of the child only
+    alarm(60);                               // wall-clock backstop (a blocked child)
+    fn();
+    _exit(0);
+  }
+  int st = 0;
+  while (waitpid(pid, &st, 0) < 0) { if (errno != EINTR) throw std::runtime_error("waitpid failed"); }
+  Guarded g;
+  if (WIFEXITED(st) && WEXITSTATUS(st) == 0) return g;
+  g.sig = WIFSIGNALED(st) ? WTERMSIG(st) : 0;
+  g.kind = (g.sig == SIGVTALRM || g.sig == SIGALRM) ? Guarded::timeout : Guarded::died;
+  return g;
+}
+
 // ------------------------------------------------------------------------------------------------ what the complex exposes
 struct Exposure {
   std::vector<Cell> cells;    // cell k = k-th element of filtration_simplex_range(); boundary in positions, independent signs
   std::vector<double> vals;   // filtration value of position k, read through the complex
-  int dim = -1;               // dimension of the complex (max over cells)
+  int dim = -1;               // dimension of the complex (max over ALL its cells, also those the filtration ignores)
   std::map<i64, std::vector<Bar>> cache;
   const std::vector<Bar>& bars(i64 p) {
     auto it = cache.find(p);
@@ -71,9 +122,9 @@ std::vector<Interval> expected_diagram(Exposure& E, i64 p, double minlen, bool p
   return out;
 }
 
-inline std::vector<int> primes_in(int lo, int hi) {
+inline std::vector<int> primes_in(int lo, int hi) {   // trial division in 64 bits: hi may be INT_MAX
   std::vector<int> ps;
-  for (int q = std::max(lo, 2); q <= hi; ++q) { bool pr = true; for (int t = 2; t * t <= q; ++t) if (q % t == 0) pr = false; if (pr) ps.push_back(q); }
+  for (i64 q = std::max(lo, 2); q <= (i64)hi; ++q) { bool pr = true; for (i64 t = 2; t * t <= q && pr; ++t) if (q % t == 0) pr = false; if (pr) ps.push_back((int)q); }
   return ps;
 }
 
@@ -83,14 +134,21 @@ struct Tuple {
   int pmin = 2, pmax = 3; // multi-field range
   double minlen = 0;
   bool pdm = false;
+  // init_coefficients called twice on the same Persistent_cohomology object before computing:
+  // 0 = once; 1 = first with other coefficients (p0 / [pmin0,pmax0]), then the real ones; 2 = the real ones twice
+  int reinit = 0;
+  int p0 = 2, pmin0 = 2, pmax0 = 3;
   std::string show() const {
     std::ostringstream o;
+    if (reinit == 1) { o << "init_coefficients("; if (multi) o << pmin0 << "," << pmax0; else o << p0; o << ") first, then "; }
+    if (reinit == 2) o << "init_coefficients called twice with ";
     if (multi) o << "multi_field[" << pmin << "," << pmax << "]"; else o << "Z_" << p;
     o << " min_interval_length=" << minlen << " persistence_dim_max=" << pdm;
     return o.str();
   }
   std::string cls() const {
-    return std::string("field=") + (multi ? "multi" : "zp") + ",pdm=" + (pdm ? "1" : "0") + ",minlen=" + (minlen < 0 ? "neg" : minlen == 0 ? "zero" : "pos");
+    return std::string("field=") + (multi ? "multi" : "zp") + ",pdm=" + (pdm ? "1" : "0") + ",minlen=" + (minlen < 0 ? "neg" : minlen == 0 ? "zero" : "pos") +
+           (reinit ? ",reinit" : "");
   }
 };
 
@@ -114,8 +172,44 @@ inline std::string multiset_diff(const std::vector<Interval>& got, const std::ve
   return std::string("diff=") + (extra.empty() ? "" : "extra") + (!extra.empty() && !missing.empty() ? "+" : "") + (missing.empty() ? "" : "missing");
 }
 
-template <class Pcoh> void init_coeff(Pcoh& pc, const Tuple& t, Field_Zp*) { pc.init_coefficients(t.p); }
-template <class Pcoh> void init_coeff(Pcoh& pc, const Tuple& t, Multi_field*) { pc.init_coefficients(t.pmin, t.pmax); }
+template <class Pcoh> void init_coeff(Pcoh& pc, const Tuple& t, Field_Zp*) {
+  if (t.reinit == 1) pc.init_coefficients(t.p0);
+  if (t.reinit == 2) pc.init_coefficients(t.p);
+  pc.init_coefficients(t.p);
+}
+template <class Pcoh> void init_coeff(Pcoh& pc, const Tuple& t, Multi_field*) {
+  if (t.reinit == 1) pc.init_coefficients(t.pmin0, t.pmax0);
+  if (t.reinit == 2) pc.init_coefficients(t.pmin, t.pmax);
+  pc.init_coefficients(t.pmin, t.pmax);
+}
+
+// State of a multi-field that was initialised twice, through the public interface of the coefficient class that
+// Persistent_cohomology::init_coefficients forwards to: the characteristic must be the product of the primes of the LAST range, the
+// identity must be 1 modulo every prime of it, and the partial identity of q must be 1 modulo q and 0 modulo the other primes
+// (Chinese remainders) - all of it independent of the library - and equal to what a fresh object gives.
+inline bool check_reinit_field(vh::Case& c, const Tuple& t) {
+  const std::string sig = std::string("field=multi,reinit=") + (t.reinit == 1 ? "other_range_first" : "same_range_twice");
+  Multi_field a, fresh;
+  if (t.reinit == 1) a.init(t.pmin0, t.pmax0); else a.init(t.pmin, t.pmax);
+  a.init(t.pmin, t.pmax);
+  fresh.init(t.pmin, t.pmax);
+  std::vector<int> ps = primes_in(t.pmin, t.pmax);
+  mpz_class prod = 1; for (int q : ps) prod *= q;
+  c.count("cmp.reinit_field_state");
+  if (mpz_class(a.characteristic()) != prod) {
+    c.violation("coefficients.reinit_equals_fresh", sig, "after " + t.show() + ": characteristic() = " + mpz_class(a.characteristic()).get_str() + ", the product of the primes of the range is " + prod.get_str());
+    return false;
+  }
+  bool ok = mpz_class(a.multiplicative_identity()) == mpz_class(fresh.multiplicative_identity());
+  for (int q : ps) {
+    mpz_class e = a.multiplicative_identity(mpz_class(q));
+    if (e != mpz_class(fresh.multiplicative_identity(mpz_class(q)))) ok = false;
+    for (int q2 : ps) if (e % q2 != (q2 == q ? 1 : 0)) ok = false;
+    if (mpz_class(a.multiplicative_identity()) % q != 1) ok = false;
+  }
+  if (!ok) { c.violation("coefficients.reinit_equals_fresh", sig, "after " + t.show() + ": the (partial) multiplicative identities are not the Chinese-remainder idempotents of the range"); return false; }
+  return true;
+}
 
 // ------------------------------------------------------------------------------------------------ consistency of the derived queries
 template <class Cx, class Pcoh>
@@ -150,7 +244,7 @@ bool check_implied(vh::Case& c, Cx& cx, Pcoh& pcoh, const std::vector<Got>& got,
     }
     if (r.chance(1, 8)) t0 = kInf;
     if (r.chance(1, 10)) f0 = -1;
-    FV from = (FV)f0, to = (FV)t0;
+    FV from = to_fv<FV>(f0), to = to_fv<FV>(t0);
     std::vector<int> pimp(D + 1, 0);
     for (auto& g : got) if ((FV)g.b <= from && (g.ddim < 0 || (FV)g.d > to) && g.dim >= 0 && g.dim <= D) pimp[g.dim]++;
     std::vector<int> pb = pcoh.persistent_betti_numbers(from, to);
@@ -170,7 +264,7 @@ bool check_implied(vh::Case& c, Cx& cx, Pcoh& pcoh, const std::vector<Got>& got,
     auto iv = pcoh.intervals_in_dimension(d);
     std::vector<std::pair<double, double>> g, w;
     for (auto& x : iv) g.emplace_back((double)x.first, (double)x.second);
-    for (auto& x : got) if (x.dim == d) w.emplace_back(x.b, x.d);
+    for (auto& x : got) if (x.dim == d) w.emplace_back(x.b, x.ddim < 0 ? essential_death<FV>() : x.d);
     std::sort(g.begin(), g.end()); std::sort(w.begin(), w.end());
     c.count("cmp.intervals_in_dimension");
     if (g != w) { c.violation("intervals_in_dimension.implied_by_pairs", sg, "intervals_in_dimension(" + vh::str(d) + ") has " + vh::str(g.size()) + " intervals, the pairs imply " + vh::str(w.size()) + " (or values differ)"); return false; }
@@ -178,6 +272,24 @@ bool check_implied(vh::Case& c, Cx& cx, Pcoh& pcoh, const std::vector<Got>& got,
     return true;
   };
   if (!derived_queries(sig)) return false;
+  // A Filtration_value without infinity (an integer type) and a never-ending interval born at a negative value: sorting the intervals
+  // by length for the output must not overflow.  Undefined behaviour is only visible as a sanitizer abort, so output_diagram is
+  // first tried in a forked copy of the process (see guarded()); the real call below is only made when the copy survived.
+  if (!std::numeric_limits<FV>::has_infinity) {
+    bool neg_essential = false;
+    for (auto& g : got) if (g.ddim < 0 && g.b < 0) neg_essential = true;
+    if (neg_essential && got.size() >= 2) {
+      c.log("output_diagram (first in a forked copy: integral Filtration_value, never-ending interval with a negative birth)");
+      c.count("guard.output_diagram_integral_negative_birth");
+      Guarded gd = guarded([&] { std::ostringstream os; pcoh.output_diagram(os); }, 5000);
+      if (gd.kind != Guarded::ok) {
+        c.violation("output_diagram.no_undefined_behaviour", "integral_filtration,essential_negative_birth",
+                    "output_diagram on a copy of the process was killed by signal " + vh::str(gd.sig) + " (sanitizer report, if any, in the shard's stderr); " +
+                    vh::str(got.size()) + " pairs, Filtration_value without infinity, a never-ending interval born at a negative value");
+        return false;
+      }
+    }
+  }
   // printed diagram: "product  dim  birth  death"
   {
     std::ostringstream os;
@@ -187,7 +299,7 @@ bool check_implied(vh::Case& c, Cx& cx, Pcoh& pcoh, const std::vector<Got>& got,
     std::vector<Row> g, w;
     std::string ch, sb, sd; int dm;
     while (is >> ch >> dm >> sb >> sd) g.emplace_back(ch, dm, strtod(sb.c_str(), nullptr), strtod(sd.c_str(), nullptr));
-    for (auto& x : got) w.emplace_back(x.ch.get_str(), x.dim, x.b, x.d);
+    for (auto& x : got) w.emplace_back(x.ch.get_str(), x.dim, x.b, x.ddim < 0 ? essential_death<FV>() : x.d);
     std::sort(g.begin(), g.end()); std::sort(w.begin(), w.end());
     c.count("cmp.output_diagram");
     if (g != w) { c.violation("output_diagram.implied_by_pairs", sig, "output_diagram prints " + vh::str(g.size()) + " rows, the pairs imply " + vh::str(w.size()) + " (or rows differ): " + os.str().substr(0, 400)); return false; }
@@ -214,9 +326,14 @@ bool run_tuple_f(vh::Case& c, Cx& cx, Exposure& E, const Tuple& t, const std::st
   typedef typename Cx::Filtration_value FV;
   const std::string sig = sig0 + "," + t.cls();
   c.log("persistence " + t.show());
+  if (t.reinit) {
+    c.count(std::string("tuple.reinit.") + (t.multi ? "multi" : "zp") + (t.reinit == 1 ? ".other_first" : ".same_twice"));
+    if (t.multi && !check_reinit_field(c, t)) return false;
+  }
   Pcoh pcoh(cx, t.pdm);
   init_coeff(pcoh, t, (Field*)nullptr);
   pcoh.compute_persistent_cohomology((FV)t.minlen);
+  if (t.reinit) c.count("cmp.reinit_then_compute");
   c.count(std::string("tuple.") + (t.multi ? "multi" : "zp"));
   c.count(std::string("tuple.pdm.") + (t.pdm ? "1" : "0"));
   c.count(std::string("tuple.minlen.") + (t.minlen < 0 ? "neg" : t.minlen == 0 ? "zero" : "pos"));
@@ -244,6 +361,9 @@ bool run_tuple_f(vh::Case& c, Cx& cx, Exposure& E, const Tuple& t, const std::st
   }
 
   if (!t.multi) {
+    // Z_p mode: the "product of primes over which the feature exists" (third component, first column of output_diagram) is p
+    for (auto& g : got) if (g.ch != t.p) { c.violation("pairs.zp_characteristic", sig, "interval (" + vh::str(g.dim) + ";" + vh::str(g.b) + "," + vh::str(g.d) + ") carries " + g.ch.get_str() + " in Z_" + vh::str(t.p) + " mode"); return false; }
+    c.count("cmp.pairs.zp_characteristic");
     std::vector<Interval> want = expected_diagram<FV>(E, t.p, t.minlen, t.pdm);
     std::string detail, dk = multiset_diff(as_intervals(got), want, detail);
     c.count("cmp.pairs.zp");
@@ -293,6 +413,11 @@ inline Tuple random_tuple(vh::Rng& r, bool multi, bool distinct_values, size_t n
   t.minlen = r.pick(lens);
   if (distinct_values && r.chance(1, 3)) t.minlen = (double)r.below(ncells / 2 + 2);
   t.pdm = r.chance(1, 2);
+  if (r.chance(1, 8)) {   // the coefficients are initialised twice on the same object
+    t.reinit = r.chance(1, 3) ? 2 : 1;
+    t.p0 = r.pick(primes);
+    auto rg0 = r.pick(ranges); t.pmin0 = rg0.first; t.pmax0 = rg0.second;
+  }
   return t;
 }
 
@@ -450,13 +575,16 @@ inline bool check_known_betti(vh::Case& c, const FModel& M, Exposure& E, i64 p) 
   return true;
 }
 
-inline void pick_tuples(vh::Rng& r, bool multi, bool distinct, size_t ncells, std::vector<Tuple>& ts) {
+inline void pick_tuples(vh::Rng& r, bool multi, bool distinct, size_t ncells, std::vector<Tuple>& ts, bool allow_neg_minlen) {
   int nt = multi ? 2 : 3;
-  for (int i = 0; i < nt; ++i) ts.push_back(random_tuple(r, multi, distinct, ncells));
+  for (int i = 0; i < nt; ++i) {
+    ts.push_back(random_tuple(r, multi, distinct, ncells));
+    if (!allow_neg_minlen && ts.back().minlen < 0) ts.back().minlen = 0;
+  }
 }
 
 template <class Cx>
-void run_tuples(vh::Case& c, Cx& cx, Exposure& E, const FModel* M, bool distinct, bool multi, const std::string& sig0) {
+void run_tuples(vh::Case& c, Cx& cx, Exposure& E, const FModel* M, bool distinct, bool multi, const std::string& sig0, bool allow_neg_minlen = true) {
   vh::Rng& r = c.rng;
   if (M && M->space.known) {
     if (!check_known_betti(c, *M, E, 2) || !check_known_betti(c, *M, E, 3)) return;
@@ -469,7 +597,7 @@ void run_tuples(vh::Case& c, Cx& cx, Exposure& E, const FModel* M, bool distinct
     for (auto& i : d3) if (i.death != kInf && i.death > i.birth) f3.push_back(i);
     if (f2 != f3) c.count("state.z2_z3_finite_positive_differ");
   }
-  std::vector<Tuple> ts; pick_tuples(r, multi, distinct, E.cells.size(), ts);
+  std::vector<Tuple> ts; pick_tuples(r, multi, distinct, E.cells.size(), ts, allow_neg_minlen);
   bool nontriv = false, sub = false;
   for (auto& t : ts) {
     TupleInfo info;
